@@ -1,0 +1,22 @@
+//go:build verif
+
+// Contracts for the deductive verifier in /verif (comment-only file; it
+// contributes no code to any build). Syntax: see /verif/DESIGN.md.
+//
+// Properties C11 and C17: a read through a replicating composite asks the
+// backend it was told to ask first, about the digest it was given, exactly
+// once; what happens on failure is the error handler's business (contracts in
+// verif_contracts.go).
+package replication
+
+//@ func GetWithBlobReplicator
+//@   requires initialBackend != nil
+//@   modifies baCalls(initialBackend), baDigest(initialBackend), baGets(initialBackend)
+//@   ensures result != nil
+//@   ensures [asks-the-first-backend-once] baGets(initialBackend) == old(baGets(initialBackend)) + 1 && baDigest(initialBackend) == digest.value
+//@ func GetFromCompositeWithBlobReplicator
+//@   requires initialBackend != nil
+//@   modifies baCalls(initialBackend), baDigest(initialBackend), baChild(initialBackend)
+//@   ensures result != nil
+//@   ensures [asks-the-first-backend-once] baCalls(initialBackend) == old(baCalls(initialBackend)) + 1
+//@         && baDigest(initialBackend) == parentDigest.value && baChild(initialBackend) == childDigest.value
